@@ -255,6 +255,7 @@ theorem facts_hold :
     Gen.FactsC07.muxOtherErrStatus = "http.StatusBadRequest" ∧
     Gen.FactsC07.muxErrBranchesReturn = true ∧
     Gen.FactsC07.muxFetchBeforeHandle = true ∧
+    Gen.FactsC07.muxAbortsOnCopyError = true ∧
     Gen.FactsC07.poolFetchErrReturned = true ∧
     Gen.FactsC07.poolBuildErrStatus = "http.StatusInternalServerError" := by decide
 
@@ -269,29 +270,29 @@ stateful (`Payload.Rd`; contract of `io.ReadFull` / `io.ReadAll∘io.LimitReader
 /-- `Request.FetchPayload` (request.go) = `fetch`, for every limit and every body source. -/
 theorem fetchReq_regenerated_from_source (dflt limit : Int) (s : Src) :
     Gen.FactsC07IR.extractionFailed = false ∧
-    toOutcome (Gen.FactsC07IR.fetchReqIR dflt limit s) = some (fetch dflt limit s) :=
+    toOutcome (Gen.FactsC07IR.fetchReqIR dflt limit false s) = some (fetch dflt limit s) :=
   ⟨by decide, Payload.fetchReq_regenerated_from_source dflt limit s⟩
 
 /-- `Response.FetchPayload` (response.go) = `fetchResp`; `m` = method of the answered request. -/
 theorem fetchResp_regenerated_from_source (dflt limit : Int) (m : Option String) (s : Src) :
     Gen.FactsC07IR.extractionFailed = false ∧
-    toOutcome (Gen.FactsC07IR.fetchRespIR dflt limit m s) = some (fetchResp dflt limit (m == some "HEAD") s) :=
+    toOutcome (Gen.FactsC07IR.fetchRespIR dflt limit m false s) = some (fetchResp dflt limit (m == some "HEAD") s) :=
   ⟨by decide, Payload.fetchResp_regenerated_from_source dflt limit m s⟩
 
 /-- mux.go: limit selection, 413 / 400 mapping, `return` before the handler = `serve`. -/
 theorem serve_regenerated_from_source (dflt pathL serverL : Int) (gf : Option Unit) (s : Src) :
     Gen.FactsC07IR.extractionFailed = false ∧
-    (Gen.FactsC07IR.serveIR dflt pathL serverL gf s).1 = (serve dflt pathL serverL s).status ∧
-    (Gen.FactsC07IR.serveIR dflt pathL serverL gf s).2.1 = (serve dflt pathL serverL s).handled ∧
+    (Gen.FactsC07IR.serveIR dflt pathL serverL gf false s).1 = (serve dflt pathL serverL s).status ∧
+    (Gen.FactsC07IR.serveIR dflt pathL serverL gf false s).2.1 = (serve dflt pathL serverL s).handled ∧
     ((serve dflt pathL serverL s).handled = true →
-      toOutcome ((Gen.FactsC07IR.serveIR dflt pathL serverL gf s).2.2, .nil) = some (serve dflt pathL serverL s).payload) :=
+      toOutcome ((Gen.FactsC07IR.serveIR dflt pathL serverL gf false s).2.2, .nil) = some (serve dflt pathL serverL s).payload) :=
   ⟨by decide, Payload.serve_regenerated_from_source dflt pathL serverL gf s⟩
 
 /-- pool.go `buildResponse`: limit selection, error returned ⇔ not delivered (`spCtx.resp` stays nil ⇒ 500). -/
 theorem buildResp_regenerated_from_source (dflt poolL proxyL : Int) (m : Option String) (err0 : Err)
     (st : Nat) (s : Src) :
     Gen.FactsC07IR.extractionFailed = false ∧
-    (let r := Gen.FactsC07IR.buildRespIR dflt poolL proxyL m err0 s
+    (let r := Gen.FactsC07IR.buildRespIR dflt poolL proxyL m err0 false s
      let w := poolResp dflt poolL proxyL (m == some "HEAD") st s
      (r.1 = .nil ↔ w.delivered = true) ∧ r.2.1 = r.2.2 ∧
      (w.delivered = false → r.2.1 = none ∧ w.status = 500) ∧
@@ -299,12 +300,12 @@ theorem buildResp_regenerated_from_source (dflt poolL proxyL : Int) (m : Option 
   ⟨by decide, Payload.buildResp_regenerated_from_source dflt poolL proxyL m err0 st s⟩
 
 /-- non-vacuity: the translated code on concrete sources (11 chunked bytes against limit 10; a short body). -/
-example : Gen.FactsC07IR.fetchReqIR 4194304 10 ⟨-1, 11⟩ = (.bytes 10, .tooLarge) ∧
-    Gen.FactsC07IR.fetchReqIR 4194304 10 ⟨8, 5⟩ = (.bytes 5, .unexpectedEOF) ∧
-    Gen.FactsC07IR.fetchReqIR 4194304 10 ⟨8, 0⟩ = (.bytes 0, .unexpectedEOF) ∧
-    Gen.FactsC07IR.fetchRespIR 4194304 0 (some "HEAD") ⟨100, 0⟩ = (.bytes 0, .nil) ∧
-    Gen.FactsC07IR.serveIR 4194304 10 1000 none ⟨-1, 11⟩ = (413, false, .unset) ∧
-    Gen.FactsC07IR.serveIR 4194304 0 (-1) (some ()) ⟨-1, 11⟩ = (0, true, .stream) := by decide
+example : Gen.FactsC07IR.fetchReqIR 4194304 10 false ⟨-1, 11⟩ = (.bytes 10, .tooLarge) ∧
+    Gen.FactsC07IR.fetchReqIR 4194304 10 false ⟨8, 5⟩ = (.bytes 5, .unexpectedEOF) ∧
+    Gen.FactsC07IR.fetchReqIR 4194304 10 false ⟨8, 0⟩ = (.bytes 0, .unexpectedEOF) ∧
+    Gen.FactsC07IR.fetchRespIR 4194304 0 (some "HEAD") false ⟨100, 0⟩ = (.bytes 0, .nil) ∧
+    Gen.FactsC07IR.serveIR 4194304 10 1000 none false ⟨-1, 11⟩ = (413, false, .unset) ∧
+    Gen.FactsC07IR.serveIR 4194304 0 (-1) (some ()) false ⟨-1, 11⟩ = (0, true, .stream) := by decide
 
 /-! ### Limit selection at all four levels, `-1` at each level -/
 
@@ -350,10 +351,11 @@ theorem minus_one_at_each_level (dflt : Int) (outer : Int) (n : Nat) (st : Nat) 
     · simp [Spec.isShort]
     · rw [h3]; simp [Spec.size]; omega
 
-/-- The request-side limits never touch the response and vice versa: `prepare` (mux + RequestAdaptor +
+/-- (By construction of the model, not counted as an obligation: on the code side `serveIR` has no pool / proxy
+parameter and `buildRespIR` no path / server parameter at all.) The request-side limits never touch the response and vice versa: `prepare` (mux + RequestAdaptor +
 prepareRequest) is independent of pool / proxy limits, `proxyResp` (transport + buildResponse) of path /
 server limits. -/
-theorem levels_do_not_cross {β : Type} (ops : Proxy.BodyOps β) (canon : String → String) (cfg : Proxy.Cfg)
+example {β : Type} (ops : Proxy.BodyOps β) (canon : String → String) (cfg : Proxy.Cfg)
     (q : Proxy.ClientReq β) (x y : Int) (method : String) (outHdr : Proxy.Hdr) (reply : Proxy.BackendReply β) :
     Proxy.prepare ops canon { cfg with poolMax := x, proxyMax := y } q = Proxy.prepare ops canon cfg q ∧
     Proxy.proxyResp ops { cfg with pathMax := x, serverMax := y } method outHdr reply =
@@ -375,10 +377,10 @@ theorem lying_long_reads_declared (dflt limit : Int) (d a : Nat) (hd : 0 < d) (h
 /-- A declared length over the limit is refused **without reading a single byte** whatever the body
 really contains — shown on the re-translated `FetchPayload`s themselves: no payload was installed
 (`Pay.unset`), i.e. neither `io.ReadFull` nor `io.ReadAll` ran. -/
-theorem declared_over_limit_refused_unread (dflt limit : Int) (d : Int) (a : Nat) (m : Option String)
+theorem declared_over_limit_refused_unread (dflt limit : Int) (d : Int) (a : Nat) (m : Option String) (failing : Bool)
     (h0 : 0 ≤ normLimit dflt limit) (hd : d > normLimit dflt limit) (hm : (m == some "HEAD") = false) :
-    Gen.FactsC07IR.fetchReqIR dflt limit ⟨d, a⟩ = (.unset, .tooLarge) ∧
-    Gen.FactsC07IR.fetchRespIR dflt limit m ⟨d, a⟩ = (.unset, .tooLarge) := by
+    Gen.FactsC07IR.fetchReqIR dflt limit failing ⟨d, a⟩ = (.unset, .tooLarge) ∧
+    Gen.FactsC07IR.fetchRespIR dflt limit m failing ⟨d, a⟩ = (.unset, .tooLarge) := by
   have hmerge : (if (limit == 0) = true then dflt else limit) = normLimit dflt limit := rfl
   have h1 : ¬ normLimit dflt limit < 0 := by omega
   have hm' : (m.isSome && (m.getD "" == "HEAD")) = false := by
@@ -436,9 +438,226 @@ example : fetchFailing 4194304 0 10 = .shortRead ∧ fetchFailing 4194304 5 10 =
 
 example : serve 4194304 (-1) 5 ⟨-1, 99⟩ = ⟨0, true, .stream⟩ ∧ serve 4194304 0 (-1) ⟨7, 7⟩ = ⟨0, true, .stream⟩ ∧
     serve 4194304 3 (-1) ⟨-1, 4⟩ = ⟨413, false, .tooLarge⟩ ∧
-    Gen.FactsC07IR.fetchReqIR 4194304 3 ⟨9, 2⟩ = (.unset, .tooLarge) ∧ fetch 4194304 10 ⟨4, 9⟩ = .ok 4 := by decide
+    Gen.FactsC07IR.fetchReqIR 4194304 3 false ⟨9, 2⟩ = (.unset, .tooLarge) ∧ fetch 4194304 10 ⟨4, 9⟩ = .ok 4 := by decide
+
+/-! ### The reader oracle with failing readers: `fetchFailing` tied to the code -/
+
+/-- Both `FetchPayload`s for either kind of body reader (ending with `io.EOF`, or failing with
+`io.ErrUnexpectedEOF` after `actual` bytes) are the model's `fetchRd`. -/
+theorem fetchRd_regenerated_from_source (dflt limit : Int) (m : Option String) (failing : Bool) (s : Src) :
+    Gen.FactsC07IR.extractionFailed = false ∧
+    toOutcome (Gen.FactsC07IR.fetchReqIR dflt limit failing s) = some (fetchRd dflt limit failing s) ∧
+    toOutcome (Gen.FactsC07IR.fetchRespIR dflt limit m failing s) =
+      some (if normLimit dflt limit < 0 then .stream else if (m == some "HEAD") then .ok 0 else fetchRd dflt limit failing s) :=
+  ⟨by decide, Payload.fetchReqRd_regenerated_from_source dflt limit failing s,
+    Payload.fetchRespRd_regenerated_from_source dflt limit m failing s⟩
+
+/-- **`fetchFailing` is the translated `Response.FetchPayload` on a failing reader of hidden length** (what sits
+behind the Proxy's gzip compressor or the transparent gunzip when the backend's body is short): with
+`failing_reader_never_delivered`, such a response is never a success in buffered mode — now a statement about
+response.go, not about a hand-written function. -/
+theorem fetchFailing_regenerated_from_source (dflt limit : Int) (m : Option String) (a : Nat)
+    (hm : (m == some "HEAD") = false) :
+    Gen.FactsC07IR.extractionFailed = false ∧
+    toOutcome (Gen.FactsC07IR.fetchRespIR dflt limit m true ⟨-1, a⟩) = some (fetchFailing dflt limit a) :=
+  ⟨by decide, Payload.fetchFailing_regenerated_from_source dflt limit m a hm⟩
+
+/-! ### Stream mode: a short body is a visibly aborted transfer, never a clean success -/
+
+section stream
+open EgVerif.Proxy
+variable {β : Type} (ops : BodyOps β)
+
+/-- **Stream mode, short backend body ⇒ the client's transfer is aborted** (the mux's copy of the response body
+fails and it aborts the connection instead of ending the message — `fixes/C07-stream-abort.patch`, fact
+`muxAbortsOnCopyError`): for every limit setting with a negative limit in force, every non-HEAD request that
+reaches the Proxy, with or without `compression:` / the transparent gunzip in between, as long as no downstream
+filter replaces the body. The status line may be out already; what the clause can and does guarantee is that
+the client never sees a complete, clean message. -/
+theorem stream_short_body_aborted (canon : String → String) (cfg : Cfg) (q : ClientReq β) (reply : BackendReply β)
+    (m : ReqMsg β) (seen : BackendSeen β) (hp : prepare ops canon cfg q = .ready m seen)
+    (hs : Spec.limitInForce cfg.dflt cfg.poolMax cfg.proxyMax < 0)
+    (hhead : (q.method == "HEAD") = false)
+    (hshort : Spec.isShort ⟨reply.cl, ops.len reply.body⟩ = true)
+    (had : ∀ a, cfg.respAd = some a → a.body = "") :
+    clientAborted ops canon cfg q reply = true := by
+  unfold clientAborted
+  rw [hp]
+  have h1 : bodyReaderFails ops cfg q.method seen.hdr reply = true := by
+    unfold bodyReaderFails transportFails
+    rw [effective_limit]
+    unfold Spec.isShort at hshort
+    simp only [Bool.and_eq_true, decide_eq_true_eq, ge_iff_le] at hshort
+    simp [hs, hhead, hshort.1, hshort.2]
+  have h2 : (downstream cfg).all (fun a => a.body == "") = true := by
+    unfold downstream
+    cases hra : cfg.respAd with
+    | none => rfl
+    | some a => simp [had a hra]
+  simp [h1, h2]
+
+/-- Conversely nothing is ever aborted in buffered mode (a short body is an error *status* there:
+`resp_short_is_error`), nor in stream mode for an honest backend whose gzip (if the transport un-gzips it) decodes. -/
+theorem not_aborted_when_buffered_or_honest (canon : String → String) (cfg : Cfg) (q : ClientReq β) (reply : BackendReply β)
+    (h : 0 ≤ Spec.limitInForce cfg.dflt cfg.poolMax cfg.proxyMax ∨
+         (Spec.isShort ⟨reply.cl, ops.len reply.body⟩ = false ∧ (ops.ungz reply.body).isSome = true)) :
+    clientAborted ops canon cfg q reply = false := by
+  unfold clientAborted
+  cases hp : prepare ops canon cfg q with
+  | early st => rfl
+  | adaptorFailed => rfl
+  | ready m seen =>
+    have h1 : bodyReaderFails ops cfg q.method seen.hdr reply = false := by
+      unfold bodyReaderFails transportFails
+      rw [effective_limit]
+      rcases h with h | ⟨h1, h2⟩
+      · have : ¬ Spec.limitInForce cfg.dflt cfg.poolMax cfg.proxyMax < 0 := by omega
+        simp [this]
+      · unfold Spec.isShort at h1
+        have h2' : (ops.ungz reply.body).isNone = false := by
+          cases hu : ops.ungz reply.body <;> simp_all
+        simp only [Bool.and_eq_false_iff, decide_eq_false_iff_not, ge_iff_le] at h1
+        rcases h1 with h1 | h1 <;> simp [h1, h2']
+    simp [h1]
+
+/-! ### The e2e judge's executable specification accepts the model (`run`) -/
+
+/-- Request direction: what `run` does with a request (answered by the mux itself / handed to the backend) meets
+`Spec.requestOK` for the limit in force — the judge evaluates the same predicate on the observed status and
+"backend contacted". (No RequestAdaptor, as in the C07 scenarios.) -/
+theorem run_meets_requestOK (canon : String → String) (cfg : Cfg) (q : ClientReq β) (reply : BackendReply β)
+    (hra : cfg.reqAd = none) :
+    Spec.requestOK (Spec.limitInForce cfg.dflt cfg.pathMax cfg.serverMax) ⟨q.declared, ops.len q.body⟩
+      (match run ops canon cfg q reply with | .early st => st | _ => 0)
+      (match run ops canon cfg q reply with | .proxied _ _ _ => true | _ => false) = true := by
+  have hspec := serve_meets_spec cfg.dflt cfg.pathMax cfg.serverMax ⟨q.declared, ops.len q.body⟩
+  unfold run prepare
+  simp only [hra]
+  by_cases hh : (serve cfg.dflt cfg.pathMax cfg.serverMax ⟨q.declared, ops.len q.body⟩).handled = true
+  · simp only [hh, Bool.not_true, Bool.false_eq_true, if_false]
+    have hst : (serve cfg.dflt cfg.pathMax cfg.serverMax ⟨q.declared, ops.len q.body⟩).status = 0 := by
+      unfold serve at hh ⊢
+      split <;> simp_all
+    rw [hh, hst] at hspec
+    cases hpr : proxyResp ops cfg q.method _ reply <;> simpa [hpr] using hspec
+  · have hh' : (serve cfg.dflt cfg.pathMax cfg.serverMax ⟨q.declared, ops.len q.body⟩).handled = false := by simpa using hh
+    simp only [hh', Bool.not_false, if_true]
+    rw [hh'] at hspec
+    exact hspec
+
+/-- Without `compression:` and without the transparent gunzip, `proxyResp` is `FetchPayload` on the backend's
+reply as it is. -/
+theorem proxyResp_plain (cfg : Cfg) (method : String) (outHdr : Hdr) (reply : BackendReply β)
+    (hhead : (method == "HEAD") = false) (hc : cfg.compression = none) (hg : gunzipApplies method outHdr reply = false) :
+    proxyResp ops cfg method outHdr reply =
+      fetchPayload ops cfg.dflt (effLimit cfg.poolMax cfg.proxyMax) false ⟨reply.status, reply.hdr, reply.cl, .stream reply.body⟩ := by
+  have ht : transportReply ops method outHdr reply = ⟨reply.status, reply.hdr, reply.cl, .stream reply.body⟩ := by
+    simp [transportReply, hhead, hg]
+  unfold proxyResp fetchOrFail compressed
+  simp only [hc, ht, hhead]
+  have : (transportFails ops method outHdr reply && decide (reply.cl < (0 : Int))) = false := by
+    unfold transportFails
+    simp only [hg, Bool.false_and, Bool.or_false]
+    by_cases h : reply.cl < 0
+    · have : ¬ 0 ≤ reply.cl := by omega
+      simp [this]
+    · simp [h]
+  simp [this]
+
+/-- Response direction, buffered mode: status and "delivered" of `run` meet `Spec.responseOK` for the limit in force
+(the scenarios of the judge: no compression, no adaptors, non-HEAD, no transparent gunzip). -/
+theorem run_meets_responseOK (canon : String → String) (cfg : Cfg) (q : ClientReq β) (reply : BackendReply β)
+    (seen : BackendSeen β) (cl : Resp β) (ok : Bool)
+    (hhead : (q.method == "HEAD") = false) (hc : cfg.compression = none) (hra : cfg.respAd = none)
+    (hg : gunzipApplies q.method seen.hdr reply = false)
+    (hr : run ops canon cfg q reply = .proxied seen cl ok) :
+    Spec.responseOK (Spec.limitInForce cfg.dflt cfg.poolMax cfg.proxyMax) ⟨reply.cl, ops.len reply.body⟩
+      reply.status cl.status ok = true := by
+  have hspec := poolResp_meets_spec cfg.dflt cfg.poolMax cfg.proxyMax reply.status ⟨reply.cl, ops.len reply.body⟩
+  unfold run at hr
+  cases hp : prepare ops canon cfg q with
+  | early st => rw [hp] at hr; cases hr
+  | adaptorFailed => rw [hp] at hr; cases hr
+  | ready m s =>
+    rw [hp] at hr
+    simp only [] at hr
+    have hseen : s = seen := by
+      cases hpr : proxyResp ops cfg q.method s.hdr reply <;> rw [hpr] at hr <;>
+        simp only [Result.proxied.injEq] at hr <;> exact hr.1
+    subst hseen
+    rw [proxyResp_plain ops cfg q.method s.hdr reply hhead hc hg] at hr
+    unfold fetchPayload at hr
+    unfold poolResp at hspec
+    simp only [Pl.content] at hr
+    generalize fetchResp cfg.dflt (effLimit cfg.poolMax cfg.proxyMax) false ⟨reply.cl, ops.len reply.body⟩ = o at hr hspec
+    have hd : downstream cfg = [] := by simp [downstream, hra]
+    cases o <;> simp only [Result.proxied.injEq, hd, adaptorChain, List.foldl_nil] at hr <;>
+      obtain ⟨_, h2, h3⟩ := hr <;> subst h2 <;> subst h3 <;> simpa [failureResp] using hspec
+
+/-- Response direction, **stream mode**: `run` + `clientAborted` meet `Spec.streamResponseOK` — a short body is an
+aborted transfer, an honest one arrives complete with the backend's status (same scenario class). This is the
+statement `Spec.responseOK` is silent about (`lim < 0 ⇒ true`). -/
+theorem run_meets_streamResponseOK (canon : String → String) (cfg : Cfg) (q : ClientReq β) (reply : BackendReply β)
+    (seen : BackendSeen β) (cl : Resp β) (ok : Bool)
+    (hs : Spec.limitInForce cfg.dflt cfg.poolMax cfg.proxyMax < 0)
+    (hhead : (q.method == "HEAD") = false) (hc : cfg.compression = none) (hra : cfg.respAd = none)
+    (hg : gunzipApplies q.method seen.hdr reply = false)
+    (hr : run ops canon cfg q reply = .proxied seen cl ok) :
+    Spec.streamResponseOK ⟨reply.cl, ops.len reply.body⟩ reply.status cl.status (clientAborted ops canon cfg q reply) = true := by
+  unfold run at hr
+  cases hp : prepare ops canon cfg q with
+  | early st => rw [hp] at hr; cases hr
+  | adaptorFailed => rw [hp] at hr; cases hr
+  | ready m s =>
+    rw [hp] at hr
+    simp only [] at hr
+    have hseen : s = seen := by
+      cases hpr : proxyResp ops cfg q.method s.hdr reply <;> rw [hpr] at hr <;>
+        simp only [Result.proxied.injEq] at hr <;> exact hr.1
+    subst hseen
+    unfold Spec.streamResponseOK
+    by_cases hsh : Spec.isShort ⟨reply.cl, ops.len reply.body⟩ = true
+    · simp only [hsh, if_true]
+      exact stream_short_body_aborted ops canon cfg q reply m s hp hs hhead hsh (by intro a ha; rw [hra] at ha; cases ha)
+    · have hsh' : Spec.isShort ⟨reply.cl, ops.len reply.body⟩ = false := by simpa using hsh
+      simp only [hsh', Bool.false_eq_true, if_false]
+      have hna : clientAborted ops canon cfg q reply = false := by
+        unfold clientAborted
+        rw [hp]
+        have : bodyReaderFails ops cfg q.method s.hdr reply = false := by
+          unfold bodyReaderFails transportFails
+          unfold Spec.isShort at hsh'
+          simp only [Bool.and_eq_false_iff, decide_eq_false_iff_not, ge_iff_le] at hsh'
+          rcases hsh' with h1 | h1 <;> simp [h1, hg]
+        simp [this]
+      rw [proxyResp_plain ops cfg q.method s.hdr reply hhead hc hg] at hr
+      have hlim : normLimit cfg.dflt (effLimit cfg.poolMax cfg.proxyMax) < 0 := by rw [effective_limit]; exact hs
+      have hd : downstream cfg = [] := by simp [downstream, hra]
+      simp only [fetchPayload, fetchResp, hlim, if_true, hd, adaptorChain, List.foldl_nil, Result.proxied.injEq] at hr
+      obtain ⟨_, h2, _⟩ := hr
+      subst h2
+      simp [hna]
+
+
+end stream
 
 /-! ### Non-vacuity -/
+
+private def exOpsS : Proxy.BodyOps (List Nat) :=
+  ⟨List.length, fun b => 31 :: b, fun b => match b with | 31 :: t => some t | _ => none,
+   fun s => s.toList.map Char.toNat, List.take, []⟩
+private def exCfgS (proxyMax : Int) : Proxy.Cfg :=
+  ⟨⟨"http://127.0.0.1:9", "127.0.0.1:9", false, false⟩, some 1, 4096, 50, 0, proxyMax, none, none, 4194304, {}, fun _ p _ => p, id⟩
+private def exQS : Proxy.ClientReq (List Nat) := ⟨"PATCH", "/upload", "", "", "client.example", [], 3, [7, 7, 7]⟩
+private def exReplyS : Proxy.BackendReply (List Nat) := ⟨200, [("Content-Length", ["101"])], 101, [5]⟩
+
+/-- stream mode, a backend that declares 101 bytes and sends 1, compression on: the model says "aborted"; the same
+reply in buffered mode is an error status instead (the replay input of fixes/C07-stream-abort.md). -/
+example :
+    Proxy.clientAborted exOpsS id (exCfgS (-1)) exQS exReplyS = true ∧ Proxy.clientAborted exOpsS id (exCfgS 0) exQS exReplyS = false ∧
+    (match Proxy.run exOpsS id (exCfgS 0) exQS exReplyS with | .proxied _ cl ok => (cl.status, ok) | _ => (0, true)) = (500, false) :=
+  ⟨by rfl, by rfl, by rfl⟩
+
 
 /-- limit 10 at path level, 1000 at server level: 10 bytes pass, 11 chunked bytes get 413. -/
 example : serve 4194304 10 1000 ⟨10, 10⟩ = ⟨0, true, .ok 10⟩ ∧
